@@ -418,3 +418,11 @@ Definition cg_case (P : cparams float) (stds : list (list float * float))
                             nreset fuel e0 in
   status_eqb st want_status && Nat.eqb n want_n && vsame (q_pos e) want_pos &&
   vsame (q_grad e) want_grad && fsame (q_value e) want_value.
+
+Definition plan_eqb (a b : ie_plan) : bool :=
+  match a, b with
+  | IeDirect m, IeDirect m' => Nat.eqb m m'
+  | IeSolve o p, IeSolve o' p' => Nat.eqb o o' && Nat.eqb p p'
+  | IeRefuse, IeRefuse => true
+  | _, _ => false
+  end.
